@@ -107,12 +107,30 @@ H_POOL = [
     ('principal, action, resource is Doc', 'principal has friend && principal.friend.profile.team in resource.owner.groups'),
     ('principal, action, resource is Doc', '{o: resource.owner}.o in {g: resource.viewers}.g'),
     ('principal, action, resource is Doc', 'principal has "manager" && (principal.manager.age > principal.age) == resource.public'),
+    # one access path that is BOTH the right-hand side of an `in` (ancestors requested) and a prefix of / equal to another
+    # access (attributes requested): the two tries are merged by AccessTrie::union_mut, in either order
+    ('principal, action, resource', 'principal in principal.profile.team || (principal.profile.team has lead && principal.profile.team.lead.age > 1)'),
+    ('principal, action, resource is Doc', 'principal in resource.owner.profile.team && resource.owner.profile.team.rank > 0'),
+    ('principal, action, resource is Doc', 'resource.owner.profile.team.rank > 0 && principal in resource.owner.profile.team'),
+    ('principal, action, resource is Doc', 'resource.viewers.contains(principal.profile.team) || principal in resource.viewers'),
+    ('principal, action, resource is Doc', 'principal in resource.folder.owner.profile.team || resource.folder.owner.profile.team == principal.profile.team'),
     # bare `has` (no later access re-adds the path): added after mutant M2 (HasAttr path dropped) escaped
     ('principal, action, resource', 'principal has manager'),
     ('principal, action, resource is Doc', '!(resource.owner has friend)'),
     ('principal, action in [Action::"view", Action::"edit"], resource', 'principal.profile has nick || context has via'),
     ('principal, action, resource is Doc', 'principal.profile.address has zip && resource.folder.owner.profile has nick'),
     ('principal, action, resource is Doc', 'if principal has friend then resource.public else resource.owner.profile.team has lead'),
+]
+# two policies whose access paths coincide (or one extends the other) with different demands: merged across policies
+H_PAIRS = [
+    (('principal, action, resource is Doc', 'principal in resource.viewers'),
+     ('principal, action, resource is Doc', 'resource.viewers.containsAll(principal.groups)')),
+    (('principal, action, resource is Doc', 'resource.owner.profile.team.rank > 3'),
+     ('principal, action, resource is Doc', 'principal in resource.owner.profile.team')),
+    (('principal, action, resource', 'principal in principal.profile.team'),
+     ('principal, action, resource', 'principal.profile.team has lead && principal.profile.team.lead == principal')),
+    (('principal, action in [Action::"view", Action::"edit"], resource', 'principal in context.info.g'),
+     ('principal, action in [Action::"view", Action::"edit"], resource', 'context.info.g.rank > 0')),
 ]
 H_TEMPLATES = [
     ('principal in ?principal, action, resource == ?resource', 'true', {"principal": ("Group", "g"), "resource": ("Doc", "d")}),
@@ -221,6 +239,10 @@ def h_policy_sets(r, n):
                 b = body if kw == "when" else "!(%s)" % body
                 pols.append({"id": "p%d" % i, "text": "%s(%s) %s { %s };" % (eff, scope, kw, b)})
         out.append({"schema": H_SCHEMA, "templates": tpls, "policies": pols, "stream": "H"})
+    for (a, b) in H_PAIRS:
+        for x, y in ((a, b), (b, a)):
+            out.append({"schema": H_SCHEMA, "templates": [], "stream": "H", "policies": [
+                {"id": "p0", "text": "permit(%s) when { %s };" % x}, {"id": "p1", "text": "permit(%s) when { %s };" % y}]})
     return out
 
 
